@@ -24,7 +24,7 @@ FLAVOURS = ["opt", "asan"]
 RULE = ("cases: seeded programs of 5-120 lines over numeric operators (+ - * / ^ MOD, unary minus, relational, AND OR XOR NOT), 16 numeric and 12 string functions, scalars, 1-3-dimensional numeric and string arrays, "
         "IF/THEN/ELSE (single line, nested, THEN line-number), FOR/NEXT/STEP (negative and fractional steps, zero-trip), WHILE/WEND, GOTO, GOSUB/RETURN (nested), ON..GOTO / ON..GOSUB, DATA/READ/RESTORE, PUT/GET/EXISTS, DIM; "
         "each run in USER_PUNCH, USER_PRINT, RATES and CALCULATE_VALUES; malformed variants of 14 kinds + token mutations under ASan. distinct & non-trivial = distinct (host, delivered-value signature) and (malformed kind, error message) pairs")
-ASSUME = ["the reference interpreter follows the manual; dialect points it takes from the manual's chipmunk-BASIC heritage are listed in DESIGN.md (unary minus binds tighter than ^, AND/OR/XOR/NOT are bitwise on rounded integers, "
+ASSUME = ["strings up to 3000 characters (PAD / STR_F$ widths of 255-700 are drawn on purpose: the interpreter allocates 256-byte blocks by default)", "the reference interpreter follows the manual; dialect points it takes from the manual's chipmunk-BASIC heritage are listed in DESIGN.md (unary minus binds tighter than ^, AND/OR/XOR/NOT are bitwise on rounded integers, "
           "relational operators yield 1/0, array bounds 0..n, FOR evaluates its limits once)", "numeric literals are decimal; strings are printable ASCII without quotes", "a program is 'valid' only if the reference evaluates it without a run-time error within 20000 steps"]
 
 # ------------------------------------------------------------------------------------------------------------------ syntax tree
@@ -211,7 +211,7 @@ class Ref:
         v = self.ev(e)
         if not isinstance(v, str):
             raise BasicError("type mismatch")
-        if len(v) > 200:
+        if len(v) > 3000:
             raise BasicError("string too long for this test")
         return v
 
@@ -258,8 +258,10 @@ class Ref:
             except ValueError:
                 raise BasicError("val of a non-literal")
         if n == "str$":
-            x = self.num(args[0])
-            if x != math.floor(x) or abs(x) > 1e15:
+            x = self.ev(args[0])          # not num(): STR$ of numbers up to 1e300 is wanted (the integer format needs more than 256 characters there)
+            if isinstance(x, str) or x != x or abs(x) > 1e305:
+                raise BasicError("type mismatch / overflow")
+            if x != math.floor(x) or (abs(x) > 1e15 and abs(x) < 1e22):
                 raise BasicError("str$ of a non-integer is host dependent")
             return "%.0f" % x           # callers wrap it in TRIM (the field width depends on -high_precision)
         if n == "mid$":
@@ -283,13 +285,13 @@ class Ref:
         if n in ("pad", "pad$"):
             s = self.sval(args[0])
             w = to_long(self.num(args[1]))
-            if w > 200:
+            if w > 3000:
                 raise BasicError("string too long for this test")
             return s + " " * max(0, w - len(s))
         if n in ("str_f$", "str_e$"):
             x = self.num(args[0])
             w, d = c_long(self.num(args[1])), c_long(self.num(args[2]))
-            if not (0 <= d <= 17 and 0 <= w <= 40) or abs(x) > 1e30:
+            if not (0 <= d <= 17 and 0 <= w <= 900) or abs(x) > 1e30:
                 raise BasicError("format outside the tested range")
             return ("%*.*f" if n == "str_f$" else "%*.*e") % (w, d, x)
         if n in ("get", "get$", "exists"):
@@ -326,7 +328,7 @@ class Ref:
             raise BasicError("type mismatch")
         if not isstr and (value != value or abs(value) > 1e150):
             raise BasicError("overflow")
-        if isstr and len(value) > 200:
+        if isstr and len(value) > 3000:
             raise BasicError("string too long for this test")
         if target[0] == "var":
             if target[1].lower() in self.arrs:
@@ -519,7 +521,7 @@ class Ref:
             for e in st[1]:
                 v = self.ev(e)
                 if isinstance(v, str):
-                    if len(v) > 150:
+                    if len(v) > 2500:
                         raise BasicError("string too long for this test")
                     self.out.append(("s", v))
                 else:
@@ -756,13 +758,16 @@ class Gen:
         if c < 0.84:
             return ("fn", r.choice(["ltrim", "rtrim", "trim"]), [self.sexpr(d + 1)])
         if c < 0.88:
-            return ("fn", r.choice(["pad", "pad$"]), [self.sexpr(d + 1), self.small_int(d + 1, 0, 12)])
+            wide = r.random() < 0.12        # strings beyond the interpreter's default 256-byte blocks
+            return ("fn", r.choice(["pad", "pad$"]), [self.sexpr(d + 1), ("num", str(r.choice([255, 256, 257, 300, 700])), 0.0) if wide else self.small_int(d + 1, 0, 12)])
         if c < 0.92:
             return ("fn", "chr$", [("bin", "+", ("num", "65", 65.0), self.small_int(d + 1, 0, 25))])
         if c < 0.95:
             return ("fn", "trim", [("fn", "str$", [("fn", "floor", [self.nexpr(d + 1)])])])
         f = r.choice(["str_f$", "str_e$"])
-        return ("fn", f, [self.nexpr(d + 1), ("num", str(r.choice([0, 8, 12, 20])), 0.0), ("num", str(r.choice([0, 2, 6, 12])), 0.0)])
+        if r.random() < 0.45:
+            return ("fn", "trim", [("fn", "str$", [("num", r.choice(["1e300", "1e300", "1e280", "1e100", "2e25", "1e22"]), 0.0)])])
+        return ("fn", f, [self.nexpr(d + 1), ("num", str(r.choice([0, 8, 12, 20, 20, 255, 256, 400])), 0.0), ("num", str(r.choice([0, 2, 6, 12])), 0.0)])
 
     def small_int(self, d, lo, hi):
         r = self.r
@@ -1284,7 +1289,7 @@ def same_out(a, b):
 
 def run_valid(ctx, case, lines, ref_out, ref_saved, kinds, r):
     cwd = ctx.scratch(case["id"])
-    flav = "asan" if case["i"] % 9 == 1 else "opt"
+    flav = "asan" if case["i"] % 3 == 1 else "opt"
     # the engine computes a MOD b as fmod(|a| + 1e-14, b) (open known finding).  A program whose standard evaluation does not change under that formula is judged
     # against the standard reference; one that does change (exact multiples, loop bounds, comparisons fed by MOD) is judged against the evaluation with the
     # engine's formula - any other deviation is still a violation - and is reported once under the known finding
